@@ -2839,7 +2839,11 @@ class Parameters:
         self_._state_watchers = []
         # (the names being triggered: assignments made to other parameters by
         # the callbacks that run meanwhile are ordinary assignments)
+        triggering = self_._TRIGGER
         self_._TRIGGER = set(params) | set(triggers)
+        if isinstance(triggering, set):
+            # trigger() called from a callback of a running trigger()
+            self_._TRIGGER |= triggering
         try:
             if self_.self is None:
                 self_.update(dict(params, **triggers))
@@ -2849,7 +2853,7 @@ class Parameters:
                 with _syncing(self_.self, params):
                     self_.update(dict(params, **triggers))
         finally:
-            self_._TRIGGER = False
+            self_._TRIGGER = triggering
             # Re-queue what was pending before the trigger, in order, and
             # without queueing a watcher twice (inside an open batch the
             # triggered events are still pending at this point).
